@@ -80,6 +80,9 @@ func genScript(rt *rapid.T, race bool) Script {
 type cmd struct {
 	kind string
 	t    int
+	// loose (sreq): the step is not followed by quiescence, so the request, which is written from its own
+	// goroutine, may be overtaken by the handler's response; then the standalone stream is its documented route.
+	loose bool
 }
 
 // slowStore delays Open by a virtual duration. (Append is called under the stream mutex; sleeping there
@@ -157,7 +160,11 @@ func runInBubble(s Script) (res vt.Result) {
 			case "note":
 				note(ctx, "inreq")
 			case "sreq":
-				sreq(ctx, "sreq")
+				if c.loose {
+					sreq(ctx, "sreqloose")
+				} else {
+					sreq(ctx, "sreq")
+				}
 			case "detached":
 				note(context.Background(), "detached")
 			case "resupd":
@@ -385,7 +392,7 @@ func runInBubble(s Script) (res vt.Result) {
 				if f.tag != c.tag {
 					res.Failf("step %d: the exchange of %s carries a message tagged %s (%s)", step, c.tag, f.tag, f.kind)
 				}
-				if f.kind == "sreq" {
+				if f.kind == "sreq" || f.kind == "sreqloose" {
 					sreqOnRequest = true
 				}
 				if f.kind == "detached" {
@@ -420,7 +427,7 @@ func runInBubble(s Script) (res vt.Result) {
 				if !strings.HasPrefix(f.tag, fmt.Sprintf("s%dr", i)) {
 					res.Failf("step %d: the standalone stream of session %d carries a message of %s", step, i, f.tag)
 				}
-				if f.kind == "sreq" || f.kind == "sreqafter" {
+				if f.kind == "sreq" || f.kind == "sreqafter" || f.kind == "sreqloose" {
 					sreqOnStandalone = true
 				}
 				if (f.kind == "inreq" || f.kind == "sreq") && !s.JSON {
@@ -499,7 +506,7 @@ func runInBubble(s Script) (res vt.Result) {
 			sreqN++
 		}
 		select {
-		case chanOf(c.tag) <- cmd{kind: kind, t: st.T}:
+		case chanOf(c.tag) <- cmd{kind: kind, t: st.T, loose: st.NoWait}:
 		default:
 		}
 		desc.WriteString(kind[:1])
